@@ -1,4 +1,5 @@
 import Momo.Proof.SortMem
+import Mathlib.Tactic.Tauto
 /-!
   C17 lemmas, part 6: the small cases of `RadixSorter::pvSort` and `pvSelectionSort`
   (RadixSorter.h:81-129): the range becomes a sorted permutation of itself, `groupFunc` has been applied to
@@ -20,7 +21,7 @@ structure GoodP (Q : α × Nat → Prop) (P : List (α × Nat) → Prop) : Prop 
 
 /-- contract of a `groupFunc`: on a range whose codes are all equal it returns a permutation of the range
 satisfying `P`, leaving the rest of the memory alone -/
-def GroupSpec (M : Mem σ α) (abs : σ → List (α × Nat)) (ok : σ → Prop) (Q : α × Nat → Prop)
+def GroupSpec (abs : σ → List (α × Nat)) (ok : σ → Prop) (Q : α × Nat → Prop)
     (P : List (α × Nat) → Prop) (G : GroupFn σ) : Prop :=
   ∀ s pre seg post, Holds abs ok s (pre ++ seg ++ post) → (∀ x ∈ seg, Q x) → (∀ x ∈ seg, ∀ y ∈ seg, x.2 = y.2) →
     ∃ s' seg', G s pre.length seg.length = some s' ∧ Holds abs ok s' (pre ++ seg' ++ post) ∧ seg'.Perm seg ∧ P seg'
@@ -99,7 +100,7 @@ theorem readCodes_spec (s : σ) (seg : List (α × Nat)) (hh : Holds abs ok s (p
     rw [L.code_at hh i hi]
     simp only [Option.bind_some]
     apply ih (i + 1) _ (by omega)
-    rw [Array.toList_push, hacc, List.take_succ, List.map_append, List.getElem?_eq_getElem hi]
+    rw [Array.toList_push, hacc, List.take_add_one, List.map_append, List.getElem?_eq_getElem hi]
     simp
 
 end
@@ -216,6 +217,253 @@ theorem selLoop_spec :
       rw [sortedL_iff]
       intro a b hab hb
       exact hsu a b hab (by omega) hb
+
+end
+
+/-! ### the run loop of pvSelectionSort -/
+
+theorem map_snd_of_perm_const {l l' : List (α × Nat)} (hp : l'.Perm l) (hc : ∀ x ∈ l, ∀ y ∈ l, x.2 = y.2) :
+    l'.map Prod.snd = l.map Prod.snd := by
+  cases l with
+  | nil => rw [hp.eq_nil]
+  | cons a t =>
+    have h1 : ∀ x ∈ a :: t, x.2 = a.2 := fun x hx => hc x hx a (by simp)
+    have e1 : (a :: t).map Prod.snd = List.replicate (a :: t).length a.2 := by
+      apply List.eq_replicate_iff.2
+      refine ⟨by simp, ?_⟩
+      intro b hb
+      obtain ⟨x, hx, rfl⟩ := List.mem_map.1 hb
+      exact h1 x hx
+    have e2 : l'.map Prod.snd = List.replicate l'.length a.2 := by
+      apply List.eq_replicate_iff.2
+      refine ⟨by simp, ?_⟩
+      intro b hb
+      obtain ⟨x, hx, rfl⟩ := List.mem_map.1 hb
+      exact h1 x (hp.mem_iff.1 hx)
+    rw [e1, e2, hp.length_eq]
+
+theorem sortedL_of_map_eq {l l' : List (α × Nat)} (h : l'.map Prod.snd = l.map Prod.snd) (hs : SortedL l) : SortedL l' := by
+  unfold SortedL at *
+  have e : ∀ m : List (α × Nat), m.Pairwise (fun x y => x.2 ≤ y.2) ↔ (m.map Prod.snd).Pairwise (· ≤ ·) := by
+    intro m; rw [List.pairwise_map]
+  rw [e] at hs ⊢
+  rwa [h]
+
+section
+variable {M : Mem σ α} {abs : σ → List (α × Nat)} {ok : σ → Prop}
+  {Q : α × Nat → Prop} {P : List (α × Nat) → Prop} {G : GroupFn σ}
+  (hG : GroupSpec abs ok Q P G) (hP : GoodP Q P) (pre post : List (α × Nat))
+include hG hP
+
+theorem groupRuns_spec (codes : Array Nat) (count : Nat) :
+    ∀ (rest : List (α × Nat)) (fuel : Nat) (s : σ) (done run : List (α × Nat)),
+      rest.length < fuel → count = (done ++ run ++ rest).length →
+      Holds abs ok s (pre ++ (done ++ run ++ rest) ++ post) → Mirror codes (done ++ run ++ rest) →
+      run ≠ [] → (∀ x ∈ run, ∀ y ∈ run, x.2 = y.2) → (∀ x ∈ done, ∀ y ∈ run, x.2 < y.2) →
+      SortedL (done ++ run ++ rest) → (∀ x ∈ done ++ run ++ rest, Q x) → P done →
+      ∃ s' seg', groupRuns G codes pre.length count fuel s (done.length + run.length) done.length = some s' ∧
+        Holds abs ok s' (pre ++ seg' ++ post) ∧ seg'.Perm (done ++ run ++ rest) ∧ SortedL seg' ∧ P seg' := by
+  intro rest
+  induction rest with
+  | nil =>
+    intro fuel s done run hf hcount hh hmir hrun hconst hsep hsorted hQ hPd
+    obtain ⟨f, rfl⟩ : ∃ f, fuel = f + 1 := ⟨fuel - 1, by omega⟩
+    unfold groupRuns
+    have hi : ¬ done.length + run.length < count := by rw [hcount]; simp
+    have hsub : done.length ≤ count := by rw [hcount]; simp only [List.length_append]; omega
+    simp only [hi, if_false, csub, hsub, if_true, Option.bind_some]
+    have hh' : Holds abs ok s ((pre ++ done) ++ run ++ post) := by
+      simpa [List.append_assoc] using hh
+    obtain ⟨s', run', h1, h2, h3, h4⟩ := hG s (pre ++ done) run post hh' (fun x hx => hQ x (by simp [hx])) hconst
+    have e1 : count - done.length = run.length := by rw [hcount]; simp
+    have e2 : (pre ++ done).length = pre.length + done.length := by simp
+    rw [e1, ← e2, h1]
+    refine ⟨s', done ++ run', rfl, by simpa [List.append_assoc] using h2, ?_, ?_, ?_⟩
+    · simpa using h3.append_left done
+    · apply sortedL_of_map_eq _ hsorted
+      simp [map_snd_of_perm_const h3 hconst]
+    · apply hP.append done run' (fun x hx => hQ x (by simp [hx])) (fun x hx => hQ x (by simp [h3.mem_iff.1 hx])) hPd h4
+      intro x hx y hy
+      exact hsep x hx y (h3.mem_iff.1 hy)
+  | cons y rest' ih =>
+    intro fuel s done run hf hcount hh hmir hrun hconst hsep hsorted hQ hPd
+    obtain ⟨f, rfl⟩ : ∃ f, fuel = f + 1 := ⟨fuel - 1, by simp at hf; omega⟩
+    unfold groupRuns
+    obtain ⟨c0, run0, rfl⟩ := List.exists_cons_of_ne_nil hrun
+    have hi : done.length + (c0 :: run0).length < count := by rw [hcount]; simp only [List.length_append, List.length_cons]; omega
+    have hi' : done.length + (c0 :: run0).length < (done ++ c0 :: run0 ++ y :: rest').length := by simp only [List.length_append, List.length_cons]; omega
+    have hp' : done.length < (done ++ c0 :: run0 ++ y :: rest').length := by simp only [List.length_append, List.length_cons]; omega
+    have hci : cd (done ++ c0 :: run0 ++ y :: rest') (done.length + (c0 :: run0).length) = y.2 := by
+      rw [cd_eq hi']
+      simp
+    have hcp : cd (done ++ c0 :: run0 ++ y :: rest') done.length = c0.2 := by
+      rw [cd_eq hp']
+      simp
+    simp only [hi, if_true, hmir.get hi', hmir.get hp', hci, hcp, Option.bind_some]
+    by_cases hne : y.2 ≠ c0.2
+    · rw [if_pos hne]
+      have hsub : done.length ≤ done.length + (c0 :: run0).length := by omega
+      simp only [csub, hsub, if_true, Option.bind_some, Nat.add_sub_cancel_left]
+      have hh' : Holds abs ok s ((pre ++ done) ++ (c0 :: run0) ++ (y :: rest' ++ post)) := by
+        simpa [List.append_assoc] using hh
+      obtain ⟨s', run', h1, h2, h3, h4⟩ := hG s (pre ++ done) (c0 :: run0) (y :: rest' ++ post) hh'
+        (fun x hx => hQ x (by simp at hx ⊢; tauto)) hconst
+      have e2 : (pre ++ done).length = pre.length + done.length := by simp
+      rw [← e2, h1]
+      simp only [Option.bind_some]
+      have hlen : run'.length = (c0 :: run0).length := h3.length_eq
+      have hmap : run'.map Prod.snd = (c0 :: run0).map Prod.snd := map_snd_of_perm_const h3 hconst
+      -- the code of `y` is strictly larger than the run's code
+      have hlt : c0.2 < y.2 := by
+        have : c0.2 ≤ y.2 := by
+          unfold SortedL at hsorted
+          rw [List.pairwise_append] at hsorted
+          exact hsorted.2.2 c0 (by simp) y (by simp)
+        omega
+      have hmapall : ((done ++ run') ++ [y] ++ rest').map Prod.snd = (done ++ c0 :: run0 ++ y :: rest').map Prod.snd := by
+        simp [hmap]
+      have := ih f s' (done ++ run') [y] (by simp at hf; omega) (by rw [hcount]; simp [hlen]; omega)
+        (by simpa [List.append_assoc] using h2)
+        (by unfold Mirror at hmir ⊢; rw [hmir, hmapall])
+        (by simp) (by intro x hx z hz; simp at hx hz; rw [hx, hz])
+        (by
+          intro x hx z hz
+          simp at hz; subst hz
+          rcases List.mem_append.1 hx with hx | hx
+          · have := hsep x hx c0 (by simp); omega
+          · have := hconst x (h3.mem_iff.1 hx) c0 (by simp); omega)
+        (sortedL_of_map_eq hmapall hsorted)
+        (by
+          intro x hx
+          apply hQ
+          simp only [List.mem_append, List.mem_cons] at hx ⊢
+          rcases hx with ((hx | hx) | hx) | hx
+          · tauto
+          · have := h3.mem_iff.1 hx; simp at this; tauto
+          · tauto
+          · tauto)
+        (hP.append done run' (fun x hx => hQ x (by simp [hx]))
+          (fun x hx => hQ x (by have := h3.mem_iff.1 hx; simp at this ⊢; tauto)) hPd h4
+          (fun x hx z hz => hsep x hx z (h3.mem_iff.1 hz)))
+      obtain ⟨s'', seg'', g1, g2, g3, g4, g5⟩ := this
+      have e3 : (done ++ run').length + [y].length = done.length + (c0 :: run0).length + 1 := by simp [hlen]
+      have e4 : (done ++ run').length = done.length + (c0 :: run0).length := by simp [hlen]
+      rw [e3, e4] at g1
+      refine ⟨s'', seg'', g1, g2, ?_, g4, g5⟩
+      apply g3.trans
+      have : (done ++ run' ++ [y] ++ rest').Perm (done ++ (c0 :: run0) ++ [y] ++ rest') :=
+        ((h3.append_left done).append_right [y]).append_right rest'
+      simpa [List.append_assoc] using this
+    · rw [if_neg hne]
+      have heq : y.2 = c0.2 := Decidable.not_not.mp hne
+      have e0 : done ++ (c0 :: run0 ++ [y]) ++ rest' = done ++ c0 :: run0 ++ y :: rest' := by simp [List.append_assoc]
+      have := ih f s done (c0 :: run0 ++ [y]) (by simp at hf; omega) (by rw [hcount, e0])
+        (by rw [e0]; exact hh) (by rw [e0]; exact hmir) (by simp)
+        (by
+          intro x hx z hz
+          have hx' : x.2 = c0.2 := by
+            rcases List.mem_append.1 hx with hx | hx
+            · exact hconst x hx c0 (by simp)
+            · simp at hx; rw [hx, heq]
+          have hz' : z.2 = c0.2 := by
+            rcases List.mem_append.1 hz with hz | hz
+            · exact hconst z hz c0 (by simp)
+            · simp at hz; rw [hz, heq]
+          omega)
+        (by
+          intro x hx z hz
+          rcases List.mem_append.1 hz with hz | hz
+          · exact hsep x hx z hz
+          · simp at hz; rw [hz, heq]; exact hsep x hx c0 (by simp))
+        (by rw [e0]; exact hsorted) (by rw [e0]; exact hQ) hPd
+      obtain ⟨s'', seg'', g1, g2, g3, g4, g5⟩ := this
+      have e3 : done.length + (c0 :: run0 ++ [y]).length = done.length + (c0 :: run0).length + 1 := by simp; omega
+      rw [e3] at g1
+      exact ⟨s'', seg'', g1, g2, by rw [e0] at g3; exact g3, g4, g5⟩
+
+end
+
+/-! ### pvSelectionSort and the small cases of pvSort -/
+
+section
+variable {M : Mem σ α} {abs : σ → List (α × Nat)} {ok : σ → Prop} (L : Lawful M abs ok)
+  {Q : α × Nat → Prop} {P : List (α × Nat) → Prop} {G : GroupFn σ}
+  (hG : GroupSpec abs ok Q P G) (hP : GoodP Q P) (pre post : List (α × Nat))
+include L hG hP
+
+theorem selectionSort_spec (R : Nat) (s : σ) (seg : List (α × Nat)) (hh : Holds abs ok s (pre ++ seg ++ post))
+    (hQ : ∀ x ∈ seg, Q x) (hn : 0 < seg.length) (hmax : seg.length ≤ selectionSortMaxCount R) :
+    ∃ s' seg', selectionSort M R G s pre.length seg.length = some s' ∧
+      Holds abs ok s' (pre ++ seg' ++ post) ∧ SortPost P seg seg' := by
+  unfold selectionSort
+  have h0 : ¬ seg.length = 0 := by omega
+  have h1 : ¬ seg.length > selectionSortMaxCount R := by omega
+  simp only [h0, h1, if_false]
+  obtain ⟨codes, hc, hmir⟩ := readCodes_spec L pre post s seg hh seg.length 0 (Array.mkEmpty seg.length) (by omega) (by simp)
+  rw [hc]
+  simp only [Option.bind_some]
+  obtain ⟨s1, seg1, codes1, hs1, hh1, hmir1, hperm1, hsorted1⟩ := selLoop_spec L pre post (seg.length + 1) s seg codes 0
+    (by omega) (by omega) hh hmir (fun a b _ h => by omega)
+  rw [hs1]
+  simp only [Option.bind_some]
+  have hlen1 : seg1.length = seg.length := hperm1.length_eq
+  obtain ⟨c0, t, rfl⟩ : ∃ c0 t, seg1 = c0 :: t := by
+    cases seg1 with
+    | nil => simp at hlen1; omega
+    | cons a t => exact ⟨a, t, rfl⟩
+  have := groupRuns_spec hG hP pre post codes1 seg.length t (seg.length + 1) s1 [] [c0]
+    (by simp at hlen1; omega) (by simpa using hlen1.symm) (by simpa using hh1) (by simpa using hmir1) (by simp)
+    (by intro x hx y hy; simp at hx hy; rw [hx, hy]) (by intro x hx; simp at hx) (by simpa using hsorted1)
+    (by intro x hx; exact hQ x (hperm1.mem_iff.1 (by simpa using hx))) (hP.small [] (by simp))
+  obtain ⟨s', seg', g1, g2, g3, g4, g5⟩ := this
+  simp only [List.length_nil, List.length_cons, Nat.zero_add] at g1
+  refine ⟨s', seg', g1, g2, ?_, g4, g5⟩
+  exact (by simpa using g3 : seg'.Perm (c0 :: t)).trans hperm1
+
+omit L hG hP in
+theorem sortedL_small (l : List (α × Nat)) (h : l.length ≤ 1) : SortedL l := by
+  unfold SortedL
+  match l, h with
+  | [], _ => exact List.Pairwise.nil
+  | [a], _ => exact List.pairwise_singleton _ _
+
+theorem pvSortWith_spec (R : Nat) (rs : σ → Nat → Nat → Option σ) (s : σ) (seg : List (α × Nat))
+    (hh : Holds abs ok s (pre ++ seg ++ post)) (hQ : ∀ x ∈ seg, Q x)
+    (hrs : 2 < seg.length → selectionSortMaxCount R < seg.length →
+      ∃ s' seg', rs s pre.length seg.length = some s' ∧ Holds abs ok s' (pre ++ seg' ++ post) ∧ SortPost P seg seg') :
+    ∃ s' seg', pvSortWith M R G rs s pre.length seg.length = some s' ∧
+      Holds abs ok s' (pre ++ seg' ++ post) ∧ SortPost P seg seg' := by
+  unfold pvSortWith
+  by_cases h2 : seg.length < 2
+  · simp only [h2, if_true]
+    exact ⟨s, seg, rfl, hh, List.Perm.refl _, sortedL_small seg (by omega), hP.small seg (by omega)⟩
+  · simp only [h2, if_false]
+    by_cases he : seg.length = 2
+    · simp only [he, if_true]
+      match seg, he with
+      | [x, y], _ =>
+        have c0 := L.code_at hh 0 (by simp)
+        have c1 := L.code_at hh 1 (by simp)
+        simp only [Nat.add_zero, List.getElem_cons_zero, List.getElem_cons_succ] at c0 c1
+        rw [c0, c1]
+        simp only [Option.bind_some]
+        by_cases hgt : x.2 > y.2
+        · simp only [hgt, if_true]
+          obtain ⟨s', hs', hh'⟩ := L.swap_at hh 0 1 (by simp) (by simp)
+          simp only [Nat.add_zero] at hs'
+          refine ⟨s', swapL [x, y] 0 1, hs', hh', swapL_perm _ _ _, ?_, hP.small _ (by simp [swapL_length])⟩
+          show SortedL (swapL [x, y] 0 1)
+          simp only [swapL, List.getElem?_cons_zero, List.getElem?_cons_succ, List.set_cons_zero, List.set_cons_succ, SortedL]
+          simp; omega
+        · simp only [hgt, if_false]
+          refine ⟨s, [x, y], rfl, hh, List.Perm.refl _, ?_, hP.small _ (by simp)⟩
+          simp [SortedL]; omega
+    · simp only [he, if_false]
+      by_cases hsel : seg.length ≤ selectionSortMaxCount R
+      · simp only [hsel, if_true]
+        exact selectionSort_spec L hG hP pre post R s seg hh hQ (by omega) hsel
+      · simp only [hsel, if_false]
+        exact hrs (by omega) (by omega)
 
 end
 
